@@ -265,12 +265,14 @@ example : DefsOk userDefs ∧ ArgsOk [Expr.div .pi (.lit cs!"3")] :=
 
 /-! ### Whole programs WITH user gate definitions (class W₁) -/
 
-/-- **Refinement for whole programs with user gate definitions (partial: class `W1`, hypothesis `keys`).**
+/-- **Refinement for whole programs with user gate definitions (partial: class `W1`).**
 `W1 p decls gdefs ops`: `p` = header, `include "qelib1.inc"`, the declarations `decls`, the gate definitions
 `gdefs` (accepted by the standard: `DefsOk`, any nesting depth, at most 64), then the operations `ops` —
 `U`, `CX`, calls of `qelib1.inc` gates and of the DEFINED gates (indexed or whole-register arguments),
-`measure`, `barrier`, `if`-conditioned gate statements; no literal zero divisor; `keys`: different calls of
-user gates are rendered to different cache keys `name(args)` (in the code the key is the call's text).
+`measure`, `barrier`, `if`-conditioned gate statements; no literal zero divisor; `wf`: in calls of user
+gates the name is an identifier and the parameter expressions are well formed (`ExprWf`: literals are numeric
+tokens of the standard, identifiers are identifiers) — rendering is injective on such expressions
+(`render_inj`), so different calls get different cache keys `name(args)`.
 If the standard accepts `p` (`flatten p = ok (env, fl)`), the importer model returns registers of the
 standard's sizes and, for every flat operation of the standard in order (every broadcast instance): the
 library gate of `shortcut_rows` for a built-in / `qelib1.inc` call, and for a call of a user gate ONE gate
@@ -341,16 +343,39 @@ example : W1 w1Example [.qreg cs!"q" 3, .qreg cs!"r" 3, .creg cs!"c" 1] w1Defs w
   refine ⟨⟨rfl, by decide, by decide, ?_, by decide, Or.inr (by decide), by decide, ?_⟩, ⟨_, _, rfl⟩⟩
   · exact ⟨by decide, by decide, by decide, by decide, rfl, by decide,
       ⟨by decide, by decide, by decide, by decide, rfl, by decide, trivial⟩⟩
-  · rintro n ps n' ps' ⟨s, hs, hc, _⟩ ⟨s', hs', hc', _⟩ heq
-    simp only [w1Ops, List.mem_cons, List.not_mem_nil, or_false] at hs hs'
-    rcases hs with rfl | rfl | rfl | rfl | rfl <;> simp only [callOf, callOfOp, Option.some.injEq, Prod.mk.injEq, reduceCtorEq] at hc <;>
-      obtain ⟨rfl, rfl⟩ := hc <;>
-      rcases hs' with rfl | rfl | rfl | rfl | rfl <;>
-        simp only [callOf, callOfOp, Option.some.injEq, Prod.mk.injEq, reduceCtorEq] at hc' <;>
-        obtain ⟨rfl, rfl⟩ := hc' <;>
-        first
-          | exact ⟨rfl, rfl⟩
-          | exact absurd heq (by decide)
+  · intro s hs n ps hc _
+    simp only [w1Ops, List.mem_cons, List.not_mem_nil, or_false] at hs
+    rcases hs with rfl | rfl | rfl | rfl | rfl <;>
+      simp only [callOf, callOfOp, Option.some.injEq, Prod.mk.injEq, reduceCtorEq] at hc <;>
+      obtain ⟨rfl, rfl⟩ := hc <;> exact ⟨by decide, by decide⟩
+
+/-! ### Rendering of parameter expressions is injective (cache keys of user gates) -/
+
+/-- **Rendering is injective on well-formed expressions** (`ExprWf`: literals are numeric tokens of the standard,
+identifiers are identifiers and not keywords, functions are `sin cos tan exp ln sqrt`; `pi`, unary minus and
+`+ - * / ^` at any nesting): the strict parser ∘ the strict lexer ∘ `Expr.render` is the identity.  So the model's
+input (a tree) and the implementation's input (its text) determine each other. -/
+theorem render_injective (e e' : Expr) (h : ExprWf e = true) (h' : ExprWf e' = true)
+    (hr : e.render = e'.render) : e = e' :=
+  render_inj h h' hr
+
+/-- **Cache keys of user gates are injective**: `name(arg tokens)` determines the name and the parameter
+expressions (names without `(`, well-formed expressions) -/
+theorem cache_key_injective (n n' : Str) (ps ps' : List Expr) (hn : ∀ c ∈ n, c ≠ '(') (hn' : ∀ c ∈ n', c ≠ '(')
+    (hw : ∀ e ∈ ps, ExprWf e = true) (hw' : ∀ e ∈ ps', ExprWf e = true)
+    (h : customName n ps = customName n' ps') : n = n' ∧ ps = ps' :=
+  customName_inj n n' ps ps' hn hn' hw hw' h
+
+/-- outside the class rendering does collide: a "literal" with a sign, an "identifier" with an operator -/
+theorem render_collisions :
+    ((Expr.lit cs!"-1").render = (Expr.neg (.lit cs!"1")).render ∧ Expr.lit cs!"-1" ≠ .neg (.lit cs!"1")) ∧
+    ((Expr.id cs!"a+b").render = (Expr.add (.id cs!"a") (.id cs!"b")).render ∧
+      Expr.id cs!"a+b" ≠ .add (.id cs!"a") (.id cs!"b")) ∧
+    customName cs!"g(pi)" [] = customName cs!"g" [.pi] :=
+  ⟨⟨render_collision_lit.1, render_collision_lit.2.1⟩, ⟨render_collision_id.1, render_collision_id.2.1⟩,
+    customName_collision_name⟩
+
+example : ExprWf (.div (.neg (.add (.id cs!"a") (.lit cs!"2.5"))) (.mul .pi (.lit cs!"3"))) = true := by decide
 
 /-! ### The line tokenizer (`read_qasm` up to and including `_tokenize`) -/
 
